@@ -278,6 +278,12 @@ SIBLINGS = [
     ("groupby_agg", {"by": ["k"], "col": "f", "how": "sum", "split_out": 1, "sort": None}, {"by": ["k"], "col": "g", "how": "sum", "split_out": 1, "sort": None}),
     ("groupby_agg", {"by": ["k"], "col": "f", "how": "mean", "split_out": 1, "sort": None}, {"by": ["k"], "col": "f", "how": "mean", "split_out": 1, "sort": None, "split_every": 2}),
     ("drop_duplicates", {"split_out": 1}, {"split_out": 2}),
+    ("reduce:f", {"how": "var", "split_every": None, "ddof": 0}, {"how": "var", "split_every": None, "ddof": 2}),
+    ("reduce:f", {"how": "std", "split_every": None}, {"how": "std", "split_every": None, "ddof": 0}),
+    ("reduce:f", {"how": "sum", "split_every": None}, {"how": "sum", "split_every": 2}),
+    ("reduce:f,g", {"how": "var", "split_every": None, "ddof": 0}, {"how": "var", "split_every": None}),
+    ("value_counts:s", {"split_out": 1}, {"split_out": 2}),
+    ("groupby_agg", {"by": ["k"], "col": "f", "how": "var", "split_out": 1, "sort": None}, {"by": ["k"], "col": "f", "how": "std", "split_out": 1, "sort": None}),
     ("head", {"n": 2, "npartitions": 1, "how": "head"}, {"n": 3, "npartitions": 1, "how": "head"}),
     ("head", {"n": 3, "npartitions": 1, "how": "head"}, {"n": 3, "npartitions": 2, "how": "head"}),
     ("head", {"n": 3, "npartitions": 1, "how": "head"}, {"n": 3, "npartitions": 1, "how": "tail"}),
@@ -304,7 +310,14 @@ def sibling_cases(tier):
             if op == "loc_slice" and not la.get("known") and la["kind"] != "from_pandas":
                 continue
             ins = ["t0", "t1"] if op == "merge" else ["t0"]
-            steps = [S("v1", op, ins, **copy.deepcopy(a1)), S("v2", op, ins, **copy.deepcopy(a2))]
+            pre = []
+            opname = op
+            if ":" in op:  # "reduce:f" -> apply to a projection of the table
+                opname, cols = op.split(":")
+                cols = cols.split(",")
+                pre = [S("p0", "col", ["t0"], col=cols[0])] if len(cols) == 1 else [S("p0", "cols", ["t0"], cols=cols)]
+                ins = ["p0"]
+            steps = pre + [S("v1", opname, ins, **copy.deepcopy(a1)), S("v2", opname, ins, **copy.deepcopy(a2))]
             tables = [table("t0", ROWS_A, layout=la)]
             if op == "merge":
                 tables.append(table("t1", ROWS_B, layout={"kind": "from_map", "cuts": [2, 0, 3]}))
